@@ -161,11 +161,24 @@ Proof.
   cbn [hist_oracle]. now rewrite (step_oracle_model _ _ _ _ _ E), IH.
 Qed.
 
+Lemma latest_oracle_model s isd : latest_oracle s isd (latest_key s isd) = true.
+Proof.
+  unfold latest_oracle, latest_key. destruct (latest_trc s isd) as [l|] eqn:L.
+  - destruct (latest_in _ _ _ L) as [Hin Hi]. cbn [key].
+    apply existsb_exists. exists l. split; auto.
+    fold (key l). rewrite nlist_eqb_refl. apply N.eqb_eq in Hi. rewrite Hi. cbn [andb].
+    apply forallb_forall. intros t Ht. destruct (t_isd t =? isd) eqn:E; cbn [negb orb]; auto.
+    apply N.eqb_eq in E. eapply latest_max; eauto.
+  - apply forallb_forall. intros t Ht. apply negb_true_iff. apply N.eqb_neq.
+    eapply latest_none_notin; eauto.
+Qed.
+
 Theorem load_oracle_model now files init :
-  load_oracle now init (snd (load_trcs now files init [] [])) = true.
+  let s' := snd (load_trcs now files init [] []) in
+  load_oracle now init s' (latest_key s' 1) = true.
 Proof.
   destruct (load_trcs now files init [] []) as [[[e l] i] s'] eqn:E. cbn [snd].
-  unfold load_oracle. apply forallb_forall. intros t Ht.
+  unfold load_oracle. rewrite latest_oracle_model, andb_true_r. apply forallb_forall. intros t Ht.
   destruct (load_trcs_origin _ _ _ _ _ _ _ _ _ E t Ht) as [K|(n & _ & K)].
   - now rewrite (in_store_In t init K).
   - apply Z.leb_le in K. rewrite K. apply orb_true_r.
